@@ -39,6 +39,7 @@ def group_traces(traces, max_group=60):
         entries, eidx = [], {}
         pulses, calls, out = [], [], []
         setpoints = []
+        pseen = {}
         maxdur = 0
         for t in grp:
             key = (id(t.device), len(t.qids))
@@ -48,8 +49,10 @@ def group_traces(traces, max_group=60):
             d = eidx[key]
             pmap = {}
             for k, p in enumerate(t.pulses, 1):
-                pulses.append(p)
-                pmap[k] = len(pulses)
+                if id(p) not in pseen:         # the same Pulse object used by several traces of the group
+                    pulses.append(p)
+                    pseen[id(p)] = len(pulses)
+                pmap[k] = pseen[id(p)]
             spmap = {}
             for k, sp in enumerate(t.setpoints, 1):
                 if sp not in setpoints:
@@ -108,6 +111,8 @@ def validate(traces, workdir, max_group=60):
             reports.append({"group": gi, "trace": r["t"], "line": r["l"], "drift": r["drift"], "v": r["v"],
                             "call": call, "out": t.steps[r["l"] - 1]["out"] if r["l"] >= 1 else None,
                             "origin": getattr(t, "origin", None), "model_out": r.get("mo"),
-                            "model_state": r.get("ms"), "real_state": t.steps[r["l"] - 1]["post"] if r["l"] >= 1 else None,
+                            "model_state": r.get("ms"),
+                            "pre_state": (t.steps[r["l"] - 2]["post"] if r["l"] >= 2 else t.init) if r["l"] >= 1 else None,
+                            "real_state": t.steps[r["l"] - 1]["post"] if r["l"] >= 1 else None,
                             "history": [(t.calls[s["k"] - 1], s["out"]) for s in t.steps[:r["l"]]]})
     return {"traces": n_traces, "lines": n_lines, "tlc_states": tlc_states, "errors": errors}, reports
